@@ -291,6 +291,17 @@ pub fn drive_encrypt(t: &mut Tracer, tier: &str, seed: u64, plan: Option<String>
         decrypt_event(t, &sess(), c, id, id, &off, None, "c1-offcurve");
         let mut big = ct.clone(); for b in big[1..33].iter_mut() { *b = 0xff; }
         decrypt_event(t, &sess(), c, id, id, &big, None, "c1-x>=p");
+        // forgeries that need no key when a degenerate C1 is accepted: C1 = (0,0) (or other fixed non-points) with w = 1 in GT,
+        // K = KDF(C1 || w || ID) computed from public data, valid C3 for it
+        for (fx, fy, name) in [(0u8, 0u8, "c1-zero-forged"), (0, 1, "c1-zero-forged"), (1, 1, "c1-zero-forged")] {
+            let mut c1 = vec![0u8; 65]; c1[0] = 4; c1[32] = fx; c1[64] = fy;
+            let mut w1 = vec![0u8; 384]; w1[383] = 1;
+            let m = b"forged".to_vec();
+            let k = gm_sm9::key::verif_kdf(&[&c1[1..], &w1[..], &id[..]].concat(), m.len() + 32);
+            let c2: Vec<u8> = m.iter().zip(k.iter()).map(|(a, b)| a ^ b).collect();
+            let c3 = gm_sm3::sm3_hash(&[&c2[..], &k[m.len()..m.len() + 32]].concat());
+            decrypt_event(t, &sess(), c, id, id, &[c1, c3.to_vec(), c2].concat(), None, name);
+        }
         let mut id2 = id.clone(); id2.push(1);
         decrypt_event(t, &sess(), c, id, &id2, ct, None, "other-identity");
         decrypt_event(t, &sess(), c, &id2, id, ct, None, "other-key");
